@@ -400,6 +400,7 @@ def run(ctx):
     ran = sum(1 for evs, info, j in res if info["rc"] == 0)
     ctx.cov["evaluations"] += len(res)
     ctx.cov["runs_accepted_by_uncrustify"] = ran
+    ctx.cov["refused_dense"] = sorted({j[0] for evs, info, j in res if info["rc"] != 0 and j[0].startswith("dense|")})[:30]
     reps = pe.judge(ctx, events, "c02")
     report(ctx, res, reps, {"TokensPreserved"}, "pipeline")
     # own-tokenizer view (all languages) on a slice
